@@ -12,6 +12,14 @@ CLAIMED = {
             NOTE_STD + " 'No key counts twice' relies on the Python dict invariant (pairwise distinct keys).", TECH_STD, "5/C01"),
     "C02": ("Coq theorems (props/C02.v, closed): if threshold distinct entries of the map are valid entries (mode-well-formed, authorized key, primitive accepts) the model of verify_signable returns whatever else the map contains; every entry, junk included, yields a boolean (never an error); accept <=> threshold <= number of counting entries, otherwise SignatureError; the verdict is invariant under permutation of entries and of the key list. Tie: relation 'model accepts => implementation accepts' on the C01 product, re-run under stdout encodings utf-8/ascii/latin-1 and in a process that imported only the authentication module, with junk keys containing non-ASCII text and lone surrogates, and on the shipped fixtures.",
             NOTE_STD + " OpenPGP header strings below 4 GiB (struct.pack).", TECH_STD, "5/C02"),
+    "C03": ("Coq theorems (props/C03.v, closed): the model of verify_root returns iff both arguments pass the delegating-metadata checker, both declare type root and a root delegation, the new integer version equals the trusted one plus one, and verify_signable in OpenPGP mode succeeds under the trusted root's root keys/threshold and under the new root's own (with C01/C02 giving its meaning); a version mismatch yields MetadataVerificationError; acceptance needs threshold valid entries under the TRUSTED keys whatever the offer declares; the verdict depends on the trusted root only through its view. The successor test of the source (int(v)+1, !=, raise) is re-read from the AST each run. Tie: accept<=>accept between extracted model and implementation over rules x signer subsets x signature states x versions (ints, bools, floats, 2^53 boundary) x types x one-path mutations, plus an independent oracle evaluating the right-hand side with its own schema checker and crypto.",
+            NOTE_STD + " Float versions/thresholds with |x| < 1e16.", TECH_STD, "5/C03"),
+    "C04": ("Coq theorems (props/C04.v, closed), by induction over arbitrary finite offer sequences: the root held after any history is linked to the initial root by a chain of C03 links; its version equals the initial version plus the number of accepted offers; an offer is accepted only at version+1, so replays and rollbacks are refused; the verdict is a function of (current root, offer). Tie: seeded histories (rotations, threshold changes, replays, skips, self-appointed, insufficient, revoked keys, raw-mode signatures) run through the implementation in one process, again with write/load of the trusted root between steps, and pairwise in fresh processes; verdict sequence and final root bytes must equal the model's.",
+            NOTE_STD + " Histories in the correspondence have length <= 12 (quick) / 40 (thorough); the theorem is unbounded. The 'outsider cannot move the root' corollary under ideal-unforgeability premises is listed in DESIGN.md as growth.", "Coq proof by induction over histories + history correspondence", "5/C04"),
+    "C05": ("Coq theorems (props/C05.v, closed): the model of verify_delegation returns iff the name is a str, the gpg flag is a bool-like, the trusted metadata passes the checker, the untrusted value is an envelope, the type test on its signed portion passes, the trusted delegations contain exactly that name, and verify_signable succeeds with THAT entry's keys and threshold; an undelegated role gives UnknownRoleError; the verdict depends on the trusted side only through well-formedness and role_rule(name). Tie: accept<=>accept and UnknownRoleError agreement over role sets x requested names (case/space/non-ASCII variants) x payload kinds x all signer subsets x modes, with an independent oracle for the right-hand side.",
+            NOTE_STD, TECH_STD, "5/C05"),
+    "C06": ("Coq theorems (props/C06.v, closed): for EVERY signature map, an envelope whose signed portion alone is well-formed delegating metadata of another type is never accepted; the type test ignores the signature map; an accepted envelope stays accepted when only its counting entries are kept (verify_signable, verify_delegation); acceptance depends only on the signed value and the set of counting entries. Tie: type-mismatched metadata under decorated signature maps must be rejected by the implementation; every envelope the implementation accepts in the C01/C03/C05 products is stripped with independent crypto and must still be accepted (all three verifiers); implementation accepts => model accepts.",
+            NOTE_STD + " Envelopes in the layout {signatures, signed}; the strip theorem for verify_root is covered by the metamorphic run, not yet by a theorem.", TECH_STD + " + metamorphic stripping", "5/C06"),
     "C15": ("Machine-checked Coq theorems (props/C15.v, closed under the global context) state that each leaf validator of the model accepts exactly its grammar (64/128/40 lower-case hex; raw or OpenPGP entry shape), that decoding is injective on accepted keys, that accepted key lists have pairwise distinct key bytes and that predicate and raising forms agree, for ALL Python values of the modelled universe. The model is tied to /repo on every run: lengths are re-read from the AST (C15_lengths_frozen), and the model's executable definitions (extracted to OCaml, sampled again by vm_compute) are run against the implementation on an exhaustive small-scope product of strings/entries with accept<->accept as relation, next to an independent regex oracle.",
             "Trusted: Coq kernel, translator, extraction (ExtrOcamlBasic only) + driver, correspondence harness; CPython's bytes.fromhex/str.isalnum/str.lower are modelled (validated by the correspondence), not verified. Values outside the universe (objects overriding dunder methods) are not covered.",
             "Coq proof (unbounded, all inputs) + translator-checked constants + extracted-model/implementation correspondence", "5/C15"),
